@@ -20,6 +20,25 @@ class C10(PropBase):
             if rng.random() < 0.35:
                 segs[i] = '*'
         rule = rng.choice(['comma', 'alias', 'dstar', 'filter', 'literal'])
+        if rule == 'comma' and rng.random() < 0.25:
+            # the ',' list (or an alias) only in a filter value, none in the path part
+            keys = self.keys_for(v, base)
+            if keys:
+                i = rng.randrange(len(keys))
+                from props.c02 import QUERY_UNSAFE as _QU
+                val = bsegs[i]
+                others = sorted(set(e.split('/')[i] for e in pool if len(e.split('/')) > i and e.split('/')[i] != val))
+                others = [o for o in others if o and not (set(o) & (_QU | set(',*>:'))) and all(ord(ch) < 128 for ch in o)]
+                if val and not (set(val) & (_QU | set(',*>:'))) and all(ord(ch) < 128 for ch in val) and val not in v.alias and ',' not in '/'.join(segs):
+                    segs[i] = '*'
+                    body = '/'.join(segs)
+                    if i == len(keys) - 1 and rng.random() < 0.5:
+                        als = [a for a, ms in sorted(v.alias.items()) if val in ms]
+                        if als:
+                            al = rng.choice(als)
+                            return 'alias', body + '?' + keys[i] + '=' + al, [body + '?' + keys[i] + '=' + m_ for m_ in v.alias[al]], {}
+                    other = rng.choice(others) if others else 'zz'
+                    return 'comma', body + '?' + keys[i] + '=' + val + ',' + other, [body + '?' + keys[i] + '=' + val, body + '?' + keys[i] + '=' + other], {}
         if rule == 'comma':
             i = rng.randrange(len(segs))
             if bsegs[i] != bsegs[i].strip() or not bsegs[i]:
